@@ -177,6 +177,7 @@ def oracle_fixture(case, obs):
                 expect.append((d[6], "never", "verdict Drop"))
             elif want == "pass" or want[1] == 0:
                 expect.append((d[6], "at", (dh, T, "verdict %s at tick %d" % (want, k + 1))))
+                deadlines.append((T, em, d[6], dh, F.fam(d[1])))        # zero delay: its deadline is this very tick
             else:
                 expect.append((d[6], "window", (dh, T + want[1], "Deliver(%d ns) emitted at %d ns" % (want[1], T))))
                 deadlines.append((T + want[1], em, d[6], dh, F.fam(d[1])))
@@ -210,10 +211,15 @@ def oracle_fixture(case, obs):
     order = {}
     for i, a in enumerate(obs["arr"]):
         order.setdefault(a[1], i)
-    deadlines.sort()
-    for (d1, e1, t1, h1, f1), (d2, e2, t2, h2, f2) in zip(deadlines, deadlines[1:]):
-        if d1 == d2 and (h1, f1) == (h2, f2) and t1 in order and t2 in order and order[t1] > order[t2]:
-            out.append(("datagrams %d and %d share the deadline %d ns but arrived out of emission order" % (t1, t2, d1), None))
+    groups = {}
+    for dl, e, t, h, f in sorted(deadlines):
+        groups.setdefault((dl, h, f), []).append(t)
+    for (dl, h, f), tags in groups.items():
+        seen = [t for t in tags if t in order]
+        for t1, t2 in zip(seen, seen[1:]):
+            if order[t1] > order[t2]:
+                out.append(("datagrams %d and %d (to host %d) share the deadline %d ns but arrived out of emission order (%d left its host first)"
+                            % (t1, t2, h, dl, t1), None))
     return out
 
 
@@ -268,6 +274,7 @@ class Spec(PropSpec):
         cases += [F.gen_fixture(rng, sched_focus=True) for _ in range(60 * n)]
         cases += [F.gen_fixture(rng, lo=True) for _ in range(15 * n)]
         cases += [F.gen_fixture(rng, with_tcp=True) for _ in range(40 * n)]
+        cases += [F.gen_coincide(rng, variant=v) for v in (0, 1, 2) for _ in range(6 * n)]
         return cases
 
     def to_model(self, case, obs):
